@@ -1,5 +1,5 @@
 import OrdModel.Proofs.TextIds
-import OrdModel.Proofs.TextDecimal
+import OrdModel.Proofs.TextDecimalFixed
 import OrdModel.Text.Outgoing
 import OrdModel.Text.Query
 /-! Lemmas for `Outgoing::from_str` and the explorer query types. -/
@@ -70,11 +70,11 @@ theorem tag_ne_panic {α : Type} {t : String} {f : α → Val} {r : Outcome α}
   | err e => simp [tag]
   | panic p => exact absurd rfl (h p)
 
-/-- the only panics of `Outgoing::from_str` are those of `Decimal::from_str` on the captured
-number and of `SpacedRune::from_str` on the captured name -/
+/-- the only panics of `Outgoing::from_str` are those of `SpacedRune::from_str` on the name
+captured by the RUNE regex (the repaired `Decimal::from_str` is total) -/
 theorem parse_panic_only_rune (s : List Char) (site : String) (h : parse s = .panic site) :
     ∃ num name, Regex.runeCaptures s = some (num, name) ∧
-      (Decimal.fromStr num = .panic site ∨ Sub.spacedRuneFromStr name = .panic site) := by
+      Sub.spacedRuneFromStr name = .panic site := by
   unfold parse at h
   split at h
   · exact absurd h (tag_ne_panic (Sub.satFromStr_ne_panic s) site)
@@ -87,14 +87,14 @@ theorem parse_panic_only_rune (s : List Char) (site : String) (h : parse s = .pa
         · split at h
           · rename_i num name hc
             refine ⟨num, name, hc, ?_⟩
-            cases hd : Decimal.fromStr num with
+            cases hd : DecimalFixed.fromStr num with
             | err e => simp [hd] at h
-            | panic p => simp only [hd, Outcome.panic.injEq] at h; exact Or.inl (by rw [h])
+            | panic p => exact absurd hd (DecimalFixed.fromStr_ne_panic num p)
             | ok d =>
               simp only [hd] at h
               cases hr : Sub.spacedRuneFromStr name with
               | err e => simp [hr] at h
-              | panic p => simp only [hr, Outcome.panic.injEq] at h; exact Or.inr (by rw [h])
+              | panic p => simp only [hr, Outcome.panic.injEq] at h; rw [h]
               | ok r => obtain ⟨a, b⟩ := r; simp [hr] at h
           · cases h
 
